@@ -38,7 +38,7 @@ def ensure_wt():
         assert rc == 0, out
     else:
         sh(["git", "checkout", "--detach", "-q", subprocess.run(["git", "-C", "/repo", "rev-parse", "HEAD"], capture_output=True, text=True).stdout.strip()], cwd=WT)
-        sh("git checkout -- . && git clean -fdq -e target", cwd=WT)
+        sh("git reset -q --hard && git clean -fdq -e target", cwd=WT)
 
 
 def apply_patch(repo, patch):
@@ -74,6 +74,7 @@ def confirm(d):
     res["applies"] = rc == 0
     if rc != 0:
         res["apply_output"] = out[-800:]
+        sh("git reset -q --hard && git clean -fdq -e target", cwd=WT)
         return res
     rc, out, dt = sh("cargo build --workspace --offline 2>&1 | tail -3", cwd=WT)
     res["builds"] = "error" not in out.lower() or "warning" in out.lower() and "could not compile" not in out
@@ -89,11 +90,11 @@ def confirm(d):
         shutil.copy(os.path.join(d, "demo.rs"), os.path.join(WT, path))
         rc, out, dt = sh(cmd, cwd=WT, timeout=400)
         res["demo_with_patch"] = {"exit": rc, "wall_s": round(dt, 1), "tail": out[-600:]}
-        sh("git checkout -- .", cwd=WT)
+        sh("git reset -q --hard", cwd=WT)
         rc, out, dt = sh(cmd, cwd=WT, timeout=400)
         res["demo_without_patch"] = {"exit": rc, "wall_s": round(dt, 1), "tail": out[-300:]}
         os.unlink(os.path.join(WT, path))
-    sh("git checkout -- . && git clean -fdq -e target", cwd=WT)
+    sh("git reset -q --hard && git clean -fdq -e target", cwd=WT)
     res["confirmed"] = bool(res["applies"] and failed == 0 and passed >= 36 and path and res["demo_with_patch"]["exit"] != 0 and res["demo_without_patch"]["exit"] == 0)
     return res
 
@@ -107,6 +108,7 @@ def detect(d, pids):
     if rc != 0:
         res["applies"] = False
         res["apply_output"] = out[-800:]
+        sh("git reset -q --hard", cwd="/repo")
         return res
     res["applies"] = True
     try:
@@ -116,7 +118,7 @@ def detect(d, pids):
             res["checks"][pid] = {"exit": rc, "wall_s": round(dt, 1), "lines": [v[:400] for v in viol[:3]],
                                   "last": out.strip().splitlines()[-1][:300] if out.strip() else ""}
     finally:
-        sh("git checkout -- . && git clean -fdq -e target", cwd="/repo")
+        sh("git reset -q --hard && git clean -fdq -e target", cwd="/repo")
     # evidence files were rewritten by the mutant runs: restore them from git
     sh("git checkout -- evidence", cwd="/verif")
     return res
